@@ -27,6 +27,7 @@ import (
 type params struct {
 	Scen string // ev1 ev2 ev3 ev4 ev5 ev6 ev7
 	Slow bool   // the consumer is away for 1.2 s before it starts receiving
+	Away bool   // bursty consumer: after the j-th event (every j) it is away for 25 s, longer than any timeout of the library
 }
 
 // piece of a script
@@ -91,11 +92,11 @@ func script(kind string, sys byte) *chanScript {
 			signedOK(0, 5000000),
 			{sx.FrameOf(true, 1, sys, 1, hb(1), wrongKey, 9, 5000001), false},
 			{sx.FrameOf(true, 7, sys, 1, hb(1), wrongKey, 9, 5000000+360000000), false}, // forged, one hour ahead: must not move the window
-			{sx.FrameOf(true, 2, sys, 1, hb(2), nil, 0, 0), false},  // unsigned
-			{sx.FrameOf(false, 3, sys, 1, hb(3), nil, 0, 0), false}, // v1
+			{sx.FrameOf(true, 2, sys, 1, hb(2), nil, 0, 0), false},                      // unsigned
+			{sx.FrameOf(false, 3, sys, 1, hb(3), nil, 0, 0), false},                     // v1
 			signedOK(4, 5000002),
 			{sx.FrameOf(true, 5, sys, 1, hb(5), sx.Key, 9, 1000), false}, // replayed: older than the window
-			signedOK(6, 4500000),                                         // reordered, inside the window
+			signedOK(6, 4500000), // reordered, inside the window
 		}
 		s.endErr = io.EOF
 	case "short":
@@ -118,19 +119,19 @@ func script(kind string, sys byte) *chanScript {
 }
 
 type exec struct {
-	p        params
-	log      sx.Log
-	perChan  map[*gomavlib.Channel][]string
-	order    []*gomavlib.Channel
-	scripts  []*chanScript // per channel in opening order as expected by endpoint
-	conns    []*vnet.FakeConn
-	connOf   map[*gomavlib.Channel]int
-	node     *gomavlib.Node
+	p               params
+	log             sx.Log
+	perChan         map[*gomavlib.Channel][]string
+	order           []*gomavlib.Channel
+	scripts         []*chanScript // per channel in opening order as expected by endpoint
+	conns           []*vnet.FakeConn
+	connOf          map[*gomavlib.Channel]int
+	node            *gomavlib.Node
 	nodeClosedFirst bool
-	problems []string
-	finished bool
-	keyed    bool
-	closeErrs map[*gomavlib.Channel]error
+	problems        []string
+	finished        bool
+	keyed           bool
+	closeErrs       map[*gomavlib.Channel]error
 }
 
 // feed builds a FakeConn delivering the script in 2 chunks at a chosen boundary.
@@ -216,7 +217,19 @@ func (e *exec) Body() {
 			vmc.AddWake(vmc.Epoch.Add(pause), "consumer-pause")
 			vmc.Await("consumer pause", func() bool { return vmc.NowNS() >= int64(pause) })
 		}
+		awayAfter, seen := 0, 0
+		if p.Away {
+			awayAfter = 1 + vmc.Choose(8, "consumer-away-after-event")
+		}
 		e.log.Consume(n, -1, func(ev gomavlib.Event) {
+			seen++
+			if seen == awayAfter {
+				defer func() {
+					until := vmc.NowNS() + int64(25*time.Second)
+					vmc.AddWake(vmc.Now().Add(25*time.Second), "consumer-away")
+					vmc.Await("consumer away", func() bool { return vmc.NowNS() >= until })
+				}()
+			}
 			var ch *gomavlib.Channel
 			var d string
 			switch x := ev.(type) {
@@ -260,7 +273,7 @@ func (e *exec) Body() {
 	if p.Scen == "ev2" {
 		// concurrent application writes
 		vmc.GoApp("writer", func() {
-			n.WriteMessageAll(hb(9))                     //nolint
+			n.WriteMessageAll(hb(9))                       //nolint
 			n.WriteMessageAll(&common.MessagePing{Seq: 3}) //nolint
 		})
 	}
@@ -278,6 +291,9 @@ func (e *exec) Body() {
 		horizon := 3 * time.Second
 		if p.Scen == "ev4" {
 			horizon = 7 * time.Second // two reconnect back-offs
+		}
+		if p.Away {
+			horizon += 30 * time.Second // the consumer comes back after 25 s
 		}
 		vmc.AddWake(vmc.Now().Add(horizon), "settle")
 		target := vmc.NowNS() + int64(horizon)
@@ -398,7 +414,7 @@ func (e *exec) finalCheck() {
 			// been closed with the cause; the last channel of a reconnecting endpoint is closed by the node
 			e.grammar(name, evs, s.expected(), !endsByItself, true)
 			if endsByItself {
-				if got, ok := e.closeErrs[ch]; ok && got != s.endErr && !(s.endErr == io.ErrUnexpectedEOF && got != nil) {
+				if got, ok := e.closeErrs[ch]; ok && !errors.Is(got, s.endErr) && !(s.endErr == io.ErrUnexpectedEOF && got != nil) {
 					e.problems = append(e.problems, fmt.Sprintf("%s: close event carries %v, the transport failed with %v", name, got, s.endErr))
 				}
 			}
@@ -449,15 +465,17 @@ func variants(thorough bool) []sx.Variant {
 	type sv struct {
 		s    string
 		slow bool
+		away bool
 	}
 	var svs []sv
 	for _, s := range []string{"ev1", "ev2", "ev3", "ev4", "ev5", "ev6", "ev7"} {
-		svs = append(svs, sv{s, false})
+		svs = append(svs, sv{s, false, false})
 	}
-	svs = append(svs, sv{"ev1", true}, sv{"ev4", true}, sv{"ev3", true})
+	svs = append(svs, sv{"ev1", true, false}, sv{"ev4", true, false}, sv{"ev3", true, false})
+	svs = append(svs, sv{"ev1", false, true}, sv{"ev4", false, true})
 	for _, x := range svs {
 		s := x.s
-		p := params{Scen: s, Slow: x.slow}
+		p := params{Scen: s, Slow: x.slow, Away: x.away}
 		bound := 2
 		if thorough {
 			bound = 3
@@ -468,6 +486,13 @@ func variants(thorough bool) []sx.Variant {
 		name := s
 		if x.slow {
 			name += "/slow"
+		}
+		if x.away {
+			name += "/away"
+			bound = 1
+			if thorough {
+				bound = 2
+			}
 		}
 		out = append(out, sx.Variant{
 			Name: name, Class: "events", MaxSteps: 20000, MaxTime: 10 * time.Minute, Bound: bound, Shards: 8,
